@@ -10,10 +10,10 @@ class ElementTetRT1(ElementHdiv):
     facet_dofs = 1
     maxdeg = 1
     dofnames = ['u^n']
-    doflocs = np.array([[.5, .5, .0],
-                        [.5, .0, .5],
-                        [.0, .5, .5],
-                        [.5, .5, .5]])
+    doflocs = np.array([[1 / 3, 1 / 3, 0.],
+                        [1 / 3, 0., 1 / 3],
+                        [0., 1 / 3, 1 / 3],
+                        [1 / 3, 1 / 3, 1 / 3]])
     refdom = RefTet
 
     def lbasis(self, X, i):
